@@ -153,7 +153,13 @@ def staircase_cases(draw, tier):
     return {'formula': f, 'vars': vs, 'signals': sig, 'q': [q.numerator, q.denominator]}
 
 
+def big_cases(tier):
+    """Few but large cases: up to 20 samples per variable, three variables, windows up to 16 cells."""
+    return ct_cases(_profile(tier, max_depth=3, max_bound=16, nvars=3), tier, max_samples=20, min_samples=8)
+
+
 LANES = [
+    Lane('big', big_cases, check, 300, 5000, ct_candidates),
     Lane('staircase', lambda tier: staircase_cases(tier), check, 1500, 20000, ct_candidates),
     Lane('units', _units_lane, check_units, 800, 10000, None),
     Lane('main', lambda tier: ct_cases(_profile(tier), tier), check, 3000, 50000, ct_candidates),
